@@ -252,6 +252,9 @@ InvRoc == (Run /\ mkind = "roc") =>
   /\ QIn01(aq)
   /\ QDef(aq) => /\ QEq(AucQ(Complement(sv), tv), QSub(QI(1), aq))      \* AUC(1 - p) = 1 - AUC(p)
                  /\ QEq(AucQ(sv, Negate(tv)), QSub(QI(1), aq))           \* exchanging the classes
+                 \* a rank statistic: unchanged by increasing maps of the scores, complemented by decreasing ones
+                 /\ QEq(AucQ([q \in 1..Len(sv) |-> 3 * sv[q] * sv[q] + 1], tv), aq)
+                 /\ QEq(AucQ([q \in 1..Len(sv) |-> -sv[q]], tv), QSub(QI(1), aq))
                  /\ (\A i \in Positives(tv), j \in Negatives(tv) : sv[i] > sv[j]) = QEq(aq, QI(1))
                  /\ (\A i, j \in 1..Len(sv) : sv[i] = sv[j]) => QEq(aq, Q(1, 2))
   /\ LogLossSum(sv, RocDen, tv) >= 0
